@@ -109,6 +109,12 @@ func roundTrip(c *run.Ctx, id string, a *ref.Packet, part string, r *gen.RNG) {
 		c.Violation(id+"/pair/"+T, "ReadPacket returned neither packet nor error", replayDetail(a, b1, nil))
 		return
 	}
+	if r.Chance(1, 3) {
+		// the program goes on receiving before it looks at this packet
+		noise(r)
+		noise(r)
+		c.Count("history", "noise-after-read", 1)
+	}
 	if got := bind.TypeOf(res.Pkt); got != int(a.Type) {
 		c.Violation(id+"/type/"+T, fmt.Sprintf("decoded as %T", res.Pkt), replayDetail(a, b1, nil))
 		return
